@@ -1,0 +1,11 @@
+//go:build verif
+// +build verif
+
+package validate
+
+// VerifReset forgets every timestamp seen by Ordered (verification harness only)
+func VerifReset() {
+	lock.Lock()
+	m = make(map[uint64]uint32)
+	lock.Unlock()
+}
